@@ -34,6 +34,10 @@ CLAIMED = {
    text="Every helper/method (17 single-name operations; Rename and Symlink with the invalid name first, second or both) x 8 FS kinds (mem, keyvalue over a plain Store, mount incl. names invalid only after a mount point, generic Sub, Sub of os.FS, cache, tar, os.FS) x 2 pre-states x an enumerated corpus around the ValidPath boundary plus 120 (quick) / 2000 (thorough) fuzzed byte strings filtered by !ValidPath: each call must match ErrInvalid and leave the snapshots of all constituent file systems unchanged; valid names with backslash/colon/dots must never be refused or split. For os.FS the same calls also run in a helper process under strace -e trace=%file with marker syscalls and positive controls: no file syscall may appear between the markers of an invalid-name call.",
    note="Operations a subject does not support at all (ErrNotImplemented for valid names) are skipped for that subject. The strace monitor follows the helper's locked OS thread; valid-name control calls must show file syscalls or the run is inconclusive. Windows conventions are not exercised here (no Windows kernel).",
    technique="runtime monitor over an enumerated+fuzzed invalid-name corpus with whole-composition snapshots, plus strace as an external kernel-boundary monitor"),
+ "C05": dict(level="exploration", design="4/C05",
+   text="Differential monitor restricted to failing calls: every case of the C01 situation matrix, four invalid-name variants of its main operation, and 60 (quick) / 3000 (thorough) random histories per writable stack are issued with the caller's top-level name through 19 layer stacks (mem; mount with the target 0/1/2 mounts deep and below a mounted directory; generic Sub of mem, of a mount, above a mount, of a Sub; os.FS under 1..3 Sub roots; cache; tar) and on a flattened mirror in one os directory. Every subject failure must be *PathError/*LinkError, carry the path os names (never empty, absolute or inner), and match os's sentinel when that is one of the seven.",
+   note="Reference paths are Go os error paths made relative to the mirror root; for invalid names the expectation is ErrInvalid naming the name passed. Cache and tar stacks issue read operations only. Known: look-ups through a regular file answer ErrNotExist instead of ErrNotDir (F03), keyed by operation and coarse situation.",
+   technique="differential runtime monitor of error type, path fields and sentinel class against the os package across composition layers"),
 }
 NOT_YET = "monitor not built yet in this session (see DESIGN.md section 4 for the planned runtime monitor)"
 props = [json.loads(l)["id"] for l in open("/verif/properties.jsonl")]
